@@ -145,6 +145,8 @@ def drive_case(case):
             kwargs["allow_template_vars"] = True
         if case["dirs"] == "caller":
             kwargs["vars_allowed_paths"] = (os.path.join(d, "base"),)
+        elif case["dirs"] == "empty":  # a collection of allowed base directories without entries (a tuple or a list)
+            kwargs["vars_allowed_paths"] = () if case["id"] % 2 else []
         elif case["dirs"] == "source":
             kwargs["source_path"] = os.path.join(d, "base", "pipeline.yml")
         text = yaml.safe_dump(doc)
@@ -166,6 +168,19 @@ def drive_case(case):
             p = [lambda: ProcessingPipelineResolver().resolve_pipeline(os.path.join(base, "pipeline.yml")),
                  lambda: ProcessingPipelineResolver().resolve([os.path.join(base, "pipeline.yml")]),
                  lambda: ProcessingPipelineResolver().resolve([base])][case["id"] % 3]()
+        elif case["kind"] != "ytag" and "source_path" not in kwargs and (case["id"] * 2654435761 >> 12) % 2 == 1:
+            # equivalent route: the document handed over as a Python dict whose sequences are TUPLES (as a caller building the
+            # document in code may write them)
+            def tup(x):
+                if isinstance(x, dict):
+                    return {k: tup(v) for k, v in x.items()}
+                if isinstance(x, list):
+                    return tuple(tup(v) for v in x)
+                return x
+
+            dd = {k: (tup(v) if k in ("transformations", "postprocessing", "finalizers") else v) for k, v in copy.deepcopy(doc).items()}
+            dd = {k: (list(v) if isinstance(v, tuple) else v) for k, v in dd.items()}  # (the stages themselves stay lists)
+            p = ProcessingPipeline.from_dict(dd, **kwargs)
         else:
             p = ProcessingPipeline.from_yaml(text, **kwargs)
         o["bit"] = _find_bits(p)
